@@ -5,11 +5,13 @@
 package lockx
 
 import (
+	"bufio"
 	"crypto/sha1"
 	"encoding/hex"
 	"errors"
 	"fmt"
 	"os"
+	"os/exec"
 	"path/filepath"
 	"sort"
 	"strings"
@@ -347,4 +349,104 @@ func Explore(root string, st Start, depth int) Result {
 	}
 	res.States = len(seen) + 1
 	return res
+}
+
+// Hold is the body of the helper process of the cross-process case: it opens
+// dir in the given mode ("rw" or "ro"), reports the result on stdout and keeps
+// the handle until its stdin is closed.
+func Hold(dir, mode string) int {
+	o := cfg.Options()
+	o.Readonly = mode == "ro"
+	l, err := klevdb.Open(dir, o)
+	if err != nil {
+		fmt.Println("FAIL", err)
+		return 1
+	}
+	fmt.Println("OPEN")
+	buf := make([]byte, 1)
+	_, _ = os.Stdin.Read(buf)
+	if err := l.Close(); err != nil {
+		fmt.Println("CLOSEFAIL", err)
+		return 1
+	}
+	return 0
+}
+
+// CrossProcess runs the exclusion matrix against a handle held by another
+// process (flock is per open file description; this is the sanity case that
+// in-process handles exercise the same kernel path).
+func CrossProcess(root string) []string {
+	var problems []string
+	self, err := os.Executable()
+	if err != nil {
+		return []string{"harness: " + err.Error()}
+	}
+	for _, mode := range []string{"rw", "ro"} {
+		w, err := drv.NewWorld(root, cfg)
+		if err != nil {
+			return []string{"harness: " + err.Error()}
+		}
+		w.Apply("P:0/1/u")
+		_ = w.L.Close()
+		w.L = nil
+		cmd := exec.Command(self, "lockhold", w.Dir, mode)
+		stdin, _ := cmd.StdinPipe()
+		stdout, _ := cmd.StdoutPipe()
+		if err := cmd.Start(); err != nil {
+			w.Cleanup()
+			return []string{"harness: " + err.Error()}
+		}
+		line, _ := bufio.NewReader(stdout).ReadString('\n')
+		if strings.TrimSpace(line) != "OPEN" {
+			problems = append(problems, "helper process could not open the directory: "+line)
+		} else {
+			o := cfg.Options()
+			if l, err := klevdb.Open(w.Dir, o); err == nil {
+				problems = append(problems, fmt.Sprintf("read-write Open succeeded while another process holds the directory open %s", mode))
+				_ = l.Close()
+			}
+			o.Readonly = true
+			l, err := klevdb.Open(w.Dir, o)
+			switch {
+			case mode == "rw" && err == nil:
+				problems = append(problems, "read-only Open succeeded while another process holds the directory open read-write")
+				_ = l.Close()
+			case mode == "ro" && err != nil:
+				problems = append(problems, "read-only Open failed while another process holds the directory open read-only: "+err.Error())
+			case err == nil:
+				_ = l.Close()
+			}
+		}
+		_ = stdin.Close()
+		if err := cmd.Wait(); err != nil {
+			problems = append(problems, "helper process: Close failed: "+err.Error())
+		}
+		if l, err := klevdb.Open(w.Dir, cfg.Options()); err != nil {
+			problems = append(problems, "read-write Open failed after the other process closed its handle: "+err.Error())
+		} else {
+			_ = l.Close()
+		}
+		w.Cleanup()
+	}
+	return problems
+}
+
+// Replay re-executes one history from a named start state.
+func Replay(root, start string, hist []string) ([]string, error) {
+	for _, st := range Starts {
+		if st.Name != start {
+			continue
+		}
+		if len(hist) == 0 {
+			return nil, nil
+		}
+		s, err := build(root, st, hist[:len(hist)-1])
+		if err != nil {
+			return nil, err
+		}
+		defer s.close()
+		s.apply(hist[len(hist)-1])
+		return s.problem, nil
+	}
+	return nil, fmt.Errorf("unknown start state %s", start)
 }
